@@ -143,6 +143,13 @@ pub enum Op {
         t: Target,
         c: char,
     },
+    /// `[\global]\let t = \nzundefined` (a name that is never defined). What `t` means afterwards
+    /// is not judged (TeX makes it undefined, texcraft leaves it unchanged - outside the statement),
+    /// but the `\global` must be consumed by this assignment and by no other.
+    LetUndefined {
+        g: bool,
+        t: Target,
+    },
     LetPrim {
         g: bool,
         t: Target,
